@@ -32,8 +32,8 @@ TIMEOUT = {"quick": 1200, "thorough": 7200}
 
 
 def plan(tier, seed):
-    return [{"shard": i, "n_shards": 16, "cfgs": 1 if tier == "quick" else 4, "perm6": 8 if tier == "quick" else 30,
-             "real": 1 if tier == "quick" else 8, "hist": 1 if tier == "quick" else 8} for i in range(16)]
+    return [{"shard": i, "n_shards": 16, "cfgs": 1 if tier == "quick" else 30, "perm6": 8 if tier == "quick" else 120,
+             "real": 1 if tier == "quick" else 40, "hist": 1 if tier == "quick" else 100} for i in range(16)]
 
 
 def small_cfg(rng, n_wfs):
